@@ -682,6 +682,25 @@ def measures():
         out.append(tuple(map(tuple, np.nan_to_num(np.asarray(a.bounds), nan=-9).tolist())))
         out.append(tuple(np.asarray(a.intersects_bounds((0.5, 2.0, 4.0, 3.5))).tolist()))
     out.append(tuple(pa[0].area.hex() if hasattr(pa[0].area, "hex") else float(pa[0].area).hex() for _ in (0,)))
+    # many elements with 1..3 parts each (per-element scratch state in a parallel loop) and inputs beyond any chunking threshold
+    from spatialpandas.geometry import MultiPolygonArray, PointArray, MultiLineArray
+    from spatialpandas.spatialindex import hilbert_curve as hc
+    def sqr(x, y):
+        return [x, y, x + 1.0, y, x + 1.0, y + 1.0, x, y + 1.0, x, y]
+    mm = MultiPolygonArray([[[sqr(float(i % 17 + 3 * j), float((i * 7) % 13))] for j in range(1 + i % 3)] for i in range(600)])
+    ml = MultiLineArray([[sqr(float(i % 17 + 3 * j), float((i * 7) % 13))[:6] for j in range(1 + i % 3)] for i in range(600)])
+    for bx in ((2.5, 1.5, 9.5, 6.5), (19.2, 0.2, 19.8, 0.8), (0.0, 0.0, 1.0, 1.0)):
+        out.append(tuple(np.asarray(mm.intersects_bounds(bx)).tolist()))
+        out.append(tuple(np.asarray(ml.intersects_bounds(bx)).tolist()))
+    out.append(tuple(np.asarray(mm.area).tolist()))
+    coords = ((np.arange(20001 * 2, dtype=np.int64).reshape(-1, 2) * 2654435761) % 1024).astype(np.int64)
+    d = hc.distances_from_coordinates(10, coords)
+    out.append(tuple(int(v) for v in d[::7]) + tuple(int(v) for v in d[-8:]))
+    out.append(tuple(int(hc.distance_from_coordinate(10, coords[k].copy())) for k in (0, 1, 20000, 19999, 16384, 16383)))
+    pts = PointArray(coords.astype(np.float64))
+    h = pts.hilbert_distance(total_bounds=(0.0, 0.0, 1024.0, 1024.0), p=10)
+    out.append(tuple(int(v) for v in np.asarray(h)[::5]) + tuple(int(v) for v in np.asarray(h)[-8:]))
+    out.append(tuple(np.asarray(pts.intersects_bounds((100.0, 100.0, 600.0, 700.0)))[::3].tolist()))
     return tuple(out)
 
 numba.set_num_threads(1)
